@@ -21,7 +21,7 @@ PROPS = {
         "cone_nodes": ["text"],
         "data_obligations": ["Tables.boms = Spec.spec_boms", "only node `text` has MIME text/plain", "text is the last root child", "node text's detector is magic.Text"],
         "rule": "each of the 28 binary data bytes x every position of text seeds x {inside the limit, just past the limit, last examined byte}; every BOM x binary tails x limits and cuts; non-binary control bytes; the empty input; all detector seeds with one byte replaced by a binary byte; judged by the extracted spec predicate text_spec on the examined header; non-trivial = some non-root detector accepted",
-        "proved": "magic.Text = (BOM or no WHATWG binary byte) for every byte string; text/plain in hierarchy => text_spec(header); text_spec(header) => result is not the bare root (all inputs, limits, oracles)",
+        "proved": "magic.Text as translated from the current source on this run (harness/gores.go -> Gen/SrcFuncs.v) never panics and equals text_det (C07_text_is_the_source); magic.Text = (BOM or no WHATWG binary byte) for every byte string; text/plain in hierarchy => text_spec(header); text_spec(header) => result is not the bare root (all inputs, limits, oracles)",
         "not_proved": "",
         "assumptions": COMMON_ASSUME,
     },
@@ -39,7 +39,7 @@ PROPS = {
         "channels": [{"cmd": "run-det"}, {"cmd": "run-bombs", "shards": 16}],
         "cone": None,
         "rule": "same stream as C03 with every detector called directly under recover on an exact-capacity copy and on a prefix of a poisoned larger buffer; a panic, a poison-dependent verdict, a nil result or a 20 s hang is a property failure",
-        "data_obligations": ["translation_agrees: the bodies of all 37 function detectors with a GoLite term (loops over literal tables and constant ranges unrolled, switches, masked comparisons, helpers inlined), translated from the current source, equal the hand-written terms up to a normalisation proved to preserve result and Panic behaviour", "comb_translation_agrees: for each of the 93 signatures built by prefix / offset / ftyp / jpeg2k, the combinator closure body in the current source instantiated with the literal arguments equals the model term", "every translated body passes the bounds analysis", "src_untranslated = []: all 34 functions of the offset-computing and looping families are inside the second translator's fragment; the lemmas of Proofs/Src{Ole,Zip,Mkv,Tar}P.v are re-proved against the freshly translated definitions"],
+        "data_obligations": ["translation_agrees: the bodies of all 37 function detectors with a GoLite term (loops over literal tables and constant ranges unrolled, switches, masked comparisons, helpers inlined), translated from the current source, equal the hand-written terms up to a normalisation proved to preserve result and Panic behaviour", "comb_translation_agrees: for each of the 93 signatures built by prefix / offset / ftyp / jpeg2k, the combinator closure body in the current source instantiated with the literal arguments equals the model term", "every translated body passes the bounds analysis", "src_untranslated = []: all 37 functions of the offset-computing and looping families (incl. Text, Svg, Php) are inside the second translator's fragment; the lemmas of Proofs/Src{Ole,Zip,Mkv,Tar}P.v are re-proved against the freshly translated definitions"],
         "proved": "soundness of the bounds analysis (a GoLite term that passes it never evaluates to Panic, for every input, limit and environment); regenerated obligation: every combinator instance of tree.go and every GoLite detector term passes the analysis; every node of the regenerated tree has a model; the offset-computing detectors (zipContains, CRX, matchOleClsid, Ppt, Matroska, Tar): checked transliterations in which every index / slice expression carries Go's run-time check never reach Panic, for any input (uint32 wrap-around and 64-bit int as in the code), and equal the total models; the four combinators that loop over the input (ciPrefix, markup, xml, shebang - 24 signatures - with ciCheck, markupCheck, xmlCheck, shebangCheck, isWS, trimLWS, trimRWS, firstLine) as translated from the current source never index out of range, never exhaust their loop fuel and equal the list models for every signature list and input (C01_source_text_combinators_never_panic); the same fifteen detectors and their seven helpers AS TRANSLATED FROM THE CURRENT SOURCE on this run (harness/gores.go -> Gen/SrcFuncs.v: every statement one binding, every index / slice / Uint32 with its run-time check, Go evaluation order, uint32 / uint8 wrap, loops over the input as folds, `for cond` with fuel) never reach Panic and return exactly the model the tree walk evaluates for their node, for every input made of bytes and every limit (C01_source_offset_detectors_never_panic); the model's Detect is total and returns a registered chain ending in the root for every input and limit",
         "not_proved": "the JSON scanner, NDJSON/CSV and the charset sniffers are modelled as total list functions in suffix-passing style (an index error is not representable); the translator harness/gores.go is trusted for what it prints (it refuses anything outside its fragment; its output is also run against the Go code in the det channel, Panic included); 64-bit int arithmetic is taken exact; crash- and hang-freedom on the real code is exercised (recover, poisoned capacity, hostile length fields, watchdog), not proved; stdlib calls are assumed not to panic",
         "assumptions": COMMON_ASSUME,
